@@ -4,6 +4,8 @@ import (
 	"bytes"
 	"fmt"
 	"github.com/ipld/go-ipld-prime"
+	"github.com/ucan-wg/go-ucan/pkg/command"
+	"github.com/ucan-wg/go-ucan/pkg/policy"
 	"math"
 	"strings"
 	"time"
@@ -274,6 +276,9 @@ func c07One(w *mon.W, s *gen.TokenSpec, label string) {
 	if _, err := tk.ToSealedWriter(&buf, s.Iss.Priv); err != nil {
 		w.Violate("seal-fails/writer/"+s.Type+"/"+tkey, "ToSealedWriter fails where ToSealed succeeds: "+err.Error(), desc)
 	}
+	if len(c07Kept) < 1500 {
+		c07Kept = append(c07Kept, c07KeptTok{tk: tk, f0: f0, desc: describeSpecShort(s), sealed: sealed})
+	}
 	if iss := gen.AccessorIssues(tk); len(iss) > 0 {
 		desc["issues"] = iss
 		w.Violate("accessors-disagree/constructed/"+s.Type, "the accessors of a constructed token disagree with each other: "+iss[0], desc)
@@ -370,10 +375,51 @@ func algClass(alg string, err error) string {
 	return "any"
 }
 
+type c07KeptTok struct {
+	tk     token.Token
+	f0     ref.V
+	desc   string
+	sealed []byte
+}
+
+// c07Kept: tokens built earlier in this run, with the fields read from them at that time; they
+// are read again at the very end (hundreds of constructions later): a constructed token does
+// not change while other tokens are being built, and still agrees with what was sealed from it.
+var c07Kept []c07KeptTok
+
+func c07Recheck(w *mon.W) {
+	// a few hundred more constructions (default nonces and all) between then and now
+	for i := 0; i < 600; i++ {
+		p := gen.Ed(i)
+		if i%2 == 0 {
+			_, _ = delegation.Root(p.DID, gen.Ed(i+1).DID, command.MustParse("/a"), policy.Policy{})
+		} else {
+			_, _ = invocation.New(p.DID, p.DID, command.MustParse("/a"), nil)
+		}
+	}
+	for _, k := range c07Kept {
+		now := gen.Fields(k.tk)
+		w.Eval(1)
+		w.Cover("constructed-token-reread-at-end")
+		if diff := gen.FieldDiff(k.f0, now); diff != "" {
+			w.Violate("constructed-token-changed-later/"+diff, fmt.Sprintf("a constructed token (%s) reports another %q after %d more tokens were built than right after its construction", k.desc, diff, len(c07Kept)), map[string]any{"token": k.desc, "then": k.f0.String(), "now": now.String()})
+			continue
+		}
+		if t2, _, err := token.FromSealed(k.sealed); err == nil {
+			if diff := gen.FieldDiff(now, gen.Fields(t2)); diff != "" {
+				w.Violate("field-differs/dagcbor/late/"+diff, fmt.Sprintf("unsealed late, %s differs in %q from the constructed token it was sealed from", k.desc, diff), map[string]any{"token": k.desc})
+			}
+		}
+	}
+	c07Kept = nil
+}
+
 func runC07(w *mon.W) {
 	if purityGate(w, c07Purity) {
 		return
 	}
+	c07Kept = nil
+	defer c07Recheck(w)
 	r := w.Rng
 	total := w.Share(w.Pick(1200, 20000))
 	vo := gen.ValOpts{IntegralF: false}
